@@ -544,6 +544,14 @@ func (k *KDC) handleAS(req *rk.KDCReq, rec *ReqRecord, l *taskLog, pt []Perturb)
 			case "edata-unknown-etype":
 				s := "salt"
 				edata = rk.EncPADataSeq([]rk.PAData{{Type: rk.PAETypeInfo2, Value: rk.EncETypeInfo2([]rk.ETypeInfo2Entry{{Etype: 99, Salt: &s}})}})
+			case "edata-other-etype":
+				// the hints name one etype only, and not the one the client asked for first
+				s := cp.salt(k.Realm)
+				et := int32(17)
+				if len(req.Etypes) > 0 && req.Etypes[0] == 17 {
+					et = 18
+				}
+				edata = rk.EncPADataSeq([]rk.PAData{{Type: rk.PAETypeInfo2, Value: rk.EncETypeInfo2([]rk.ETypeInfo2Entry{{Etype: et, Salt: &s}})}})
 			case "edata-s2k-iter":
 				// the hint for the first requested etype carries this PBKDF2 iteration count (4 bytes,
 				// big-endian): 0, or a count that would take a client hours
